@@ -29,19 +29,43 @@ Definition carries (cl: list cls) (s: site) (c: nat) (t: tag) : Prop :=
 Definition tag_unique (cl: list cls) (s: site) (t: tag) : Prop :=
   forall c1 c2, carries cl s c1 t -> carries cl s c2 t -> c1 = c2.
 
-(* what the property demands of a decode of an input tagged t *)
-Definition field_spec (cl: list cls) (s: site) (t: tag) (o: outcome) : Prop :=
-  (forall c, o = OInst c <-> carries cl s c t)
+(* what the property demands of a decode of an input tagged t: the unique eligible class carrying t is SELECTED
+   (and then accepts or rejects the input itself); SuitableVariantNotFound iff nobody carries t *)
+Definition field_spec (acc: cls -> list nat -> verdict) (cl: list cls) (s: site) (t: tag) (present: list nat) (o: outcome) : Prop :=
+  let v c := acc (nth c cl dummy_cls) present in
+  (forall c, o = OInst c <-> carries cl s c t /\ v c = VAccept)
+  /\ (forall c, o = ORej c <-> carries cl s c t /\ v c = VReject)
   /\ (o = ONotFound <-> forall c, ~ carries cl s c t)
-  /\ o <> OMissing /\ o <> OBadSite.
+  /\ o <> OMissing /\ o <> OBadSite /\ (forall c, o <> OKeyErr c) /\ (forall cs, o <> OMany cs) /\ o <> ONotDict.
 
 (* what the property demands in no-field mode (acceptance abstract) *)
-Definition nofield_spec (acc: cls -> list nat -> bool) (cl: list cls) (s: site) (present: list nat) (o: outcome) : Prop :=
-  let accepts c := acc (nth c cl dummy_cls) present = true in
+Definition nofield_spec (acc: cls -> list nat -> verdict) (cl: list cls) (s: site) (present: list nat) (o: outcome) : Prop :=
+  let accepts c := acc (nth c cl dummy_cls) present = VAccept in
   (forall c, o = OInst c ->
       eligible cl s c /\ accepts c
       /\ (is_sub cl s c \/ forall c', is_sub cl s c' -> ~ accepts c'))        (* subclasses before supertypes *)
   /\ (o = ONotFound <-> forall c, eligible cl s c -> ~ accepts c)
   /\ ((exists c, o = OInst c) \/ o = ONotFound)
-  /\ o = match find (fun c => acc (nth c cl dummy_cls) present) (variants cl s) with   (* first that accepts, in walk order *)
-         | Some c => OInst c | None => ONotFound end.
+  /\ o = match find (fun c => match acc (nth c cl dummy_cls) present with VAccept => true | _ => false end) (variants cl s) with
+         | Some c => OInst c | None => ONotFound end.    (* first that accepts, in walk order *)
+
+(* one from_dict call of a holder with several discriminated fields: every field is decided by ITS OWN site
+   (own registry, own key, own tagger) - the sites do not interfere; the first failing field decides the error *)
+Inductive seq_spec (acc: cls -> list nat -> verdict) (cl: list cls) (sites: list site) :
+  list (nat * inkeys * list nat) -> list nat -> outcome -> Prop :=
+| seq_nil done : seq_spec acc cl sites [] done (OMany (rev done))
+| seq_ok i s inp present t c r done o :
+    nth_error sites i = Some s -> assoc (s_fid s) inp = Some (Hashable t) ->
+    field_spec acc cl s t present (OInst c) ->
+    seq_spec acc cl sites r (c :: done) o ->
+    seq_spec acc cl sites ((i, inp, present) :: r) done o
+| seq_fail i s inp present t r done o :
+    nth_error sites i = Some s -> assoc (s_fid s) inp = Some (Hashable t) ->
+    field_spec acc cl s t present o -> (forall c, o <> OInst c) ->
+    seq_spec acc cl sites ((i, inp, present) :: r) done o
+| seq_missing i s inp present r done :
+    nth_error sites i = Some s -> assoc (s_fid s) inp = None ->
+    seq_spec acc cl sites ((i, inp, present) :: r) done OMissing
+| seq_unhashable i s inp present r done :
+    nth_error sites i = Some s -> assoc (s_fid s) inp = Some Unhashable ->
+    seq_spec acc cl sites ((i, inp, present) :: r) done ONotFound.
